@@ -312,10 +312,11 @@ func (r *relay) processor(id uint32) Processor {
 }
 
 func (r *relay) updateTableSize(v uint32) {
-	r.decoderMu.Lock()
-	r.decoder.SetMaxDynamicTableSize(v)
-	r.decoderMu.Unlock()
-
+	// Only the encoder towards the peer that announced the new size is affected. The decoder
+	// mirrors the table of the sender's encoder, which keeps using its old size until it has
+	// processed the (forwarded) SETTINGS and then says so with a dynamic table size update at
+	// the start of a header block; resizing the decoder here would evict entries the sender
+	// may still reference.
 	r.encoderMu.Lock()
 	r.encoder.SetMaxDynamicTableSize(v)
 	r.encoderMu.Unlock()
